@@ -18,8 +18,24 @@ struct RunResult {
 }
 
 fn run_cli(cli: &str, cwd: &Path, args: &[String], timeout: Duration) -> RunResult {
-    let mut child = match Command::new(cli)
-        .args(args)
+    run_cli_limited(cli, cwd, args, timeout, None)
+}
+
+/// `fsize_kib`: run the tool with a file size limit (writes beyond it fail with EFBIG, like a full disk or a quota)
+fn run_cli_limited(cli: &str, cwd: &Path, args: &[String], timeout: Duration, fsize_kib: Option<usize>) -> RunResult {
+    let mut cmd = match fsize_kib {
+        None => {
+            let mut c = Command::new(cli);
+            c.args(args);
+            c
+        }
+        Some(k) => {
+            let mut c = Command::new("bash");
+            c.arg("-c").arg(format!("trap '' XFSZ; ulimit -f {k}; exec \"$0\" \"$@\"")).arg(cli).args(args);
+            c
+        }
+    };
+    let mut child = match cmd
         .current_dir(cwd)
         .stdin(Stdio::null())
         .stdout(Stdio::null())
@@ -143,11 +159,19 @@ pub fn run(args: &Args) -> i32 {
         (0, "0"),
         (1, "1"),
         (2, "tiny"),
+        (255, "255"),
+        (256, "256"),
+        (257, "257"),
         (1023, "1KiB-1"),
         (1024, "1KiB"),
         (1025, "1KiB+1"),
         (16383, "16KiB-1"),
         (16385, "16KiB+1"),
+        (65535, "64KiB-1"),
+        (65536, "64KiB"),
+        (65537, "64KiB+1"),
+        (65791, "64KiB+255"),
+        (65792, "64KiB+256"),
         (128 * 1024 - 1, "128KiB-1"),
         (128 * 1024, "128KiB"),
         (128 * 1024 + 1, "128KiB+1"),
@@ -322,6 +346,72 @@ pub fn run(args: &Args) -> i32 {
     small.par_iter().for_each(|(i, c)| run_case(*i, c));
     for (i, c) in big {
         run_case(i, c);
+    }
+    // ---------------- operations that cannot be carried out: the output cannot be written (device without space, file
+    // size limit in the middle of the result). The tool has to fail through its exit status; a panic that leaves a file
+    // behind, or exit status 0, is what the statement rules out.
+    {
+        let dir = root.join("faults");
+        std::fs::create_dir_all(&dir).unwrap();
+        let mut r = Rng::for_case(args.seed, 192, 0);
+        let have_dev_full = Path::new("/dev/full").exists();
+        let mut fault_runs = 0u64;
+        for (k, size) in [3_000usize, 70_000, 150_000, 400_000].into_iter().enumerate() {
+            let content = gen_content(&mut r, 1, size); // incompressible: the archive is as large as the input
+            let input = dir.join(format!("in{k}.bin"));
+            std::fs::write(&input, &content).unwrap();
+            let good = dir.join(format!("good{k}.zst"));
+            let pre = run_cli(&cli, &dir, &["compress".into(), input.to_string_lossy().into_owned(), good.to_string_lossy().into_owned(), "-l".into(), "1".into()], timeout);
+            if pre.code != Some(0) {
+                rec.inconclusive("fault cases: could not prepare an archive");
+                continue;
+            }
+            for op in ["compress -l 0", "compress -l 1", "compress", "decompress"] {
+                for fault in ["dev_full", "file_size_limit"] {
+                    if fault == "dev_full" && !have_dev_full {
+                        continue;
+                    }
+                    let out = if fault == "dev_full" { PathBuf::from("/dev/full") } else { dir.join(format!("out_{k}_{}_{fault}", op.replace(' ', "_"))) };
+                    let _ = if fault == "dev_full" { Ok(()) } else { std::fs::remove_file(&out).or(Ok::<(), std::io::Error>(())) };
+                    let mut a: Vec<String> = Vec::new();
+                    if op == "decompress" {
+                        a.extend(["decompress".to_string(), good.to_string_lossy().into_owned(), out.to_string_lossy().into_owned()]);
+                    } else {
+                        a.extend(["compress".to_string(), input.to_string_lossy().into_owned(), out.to_string_lossy().into_owned()]);
+                        a.extend(op.split(' ').skip(1).map(|x| x.to_string()));
+                    }
+                    // the limit cuts the result roughly in the middle (at least 1 KiB is allowed)
+                    let limit = if fault == "file_size_limit" { Some((size / 2048).max(1)) } else { None };
+                    if let Some(l) = limit {
+                        if l * 1024 >= size {
+                            continue; // the result fits: not a fault
+                        }
+                    }
+                    rec.eval();
+                    fault_runs += 1;
+                    let res = run_cli_limited(&cli, &dir, &a, timeout, limit);
+                    if res.timed_out {
+                        rec.inconclusive("fault case timed out");
+                        continue;
+                    }
+                    let pan = panicked(&res);
+                    let left = if fault == "dev_full" { None } else { std::fs::metadata(&out).ok().map(|m| m.len()) };
+                    let disc = format!("{op} fault={fault}");
+                    let tail: String = res.stderr.chars().rev().take(300).collect::<String>().chars().rev().collect();
+                    let replay = json!({"args": a, "file_size_limit_kib": limit, "input_len": size});
+                    if res.code == Some(0) {
+                        rec.violation(Sig::new("success_reported_although_output_could_not_be_written", "fault", &disc), json!({"exit": 0, "output_file_len": left, "stderr": tail}), replay);
+                    } else if pan && left.is_some() {
+                        rec.violation(Sig::new("panic_leaves_output", "fault", &disc), json!({"exit": res.code, "output_file_len": left, "stderr": tail}), replay);
+                    } else {
+                        rec.count(&format!("fault_{fault}_failure_reported_by_exit_status"), 1);
+                        rec.distinct(fnv_str(&format!("fault|{op}|{fault}|{k}")));
+                    }
+                    bump(format!("fault {fault} {op}: exit {:?}{}{}", res.code, if pan { " panic" } else { "" }, if left.is_some() { " output left" } else { "" }));
+                }
+            }
+        }
+        rec.count("fault_runs", fault_runs);
     }
     let _ = std::fs::remove_dir_all(&root);
     rec.set_extra("outcomes_by_level_option", json!(*outcome_counts.lock().unwrap()));
